@@ -139,6 +139,15 @@ INVARIANT ImplCellwiseC
 INVARIANT ImplDosKernel
 INVARIANT ImplDosKernelNonNegative
 INVARIANT ImplDosKernelAdditive
+INVARIANT ImplShortestDiagonalC
+INVARIANT ImplShortestDiagonalPy
+INVARIANT ImplShortestDiagonalTotalDos
+INVARIANT ImplShortestDiagonalProjectedDos
+INVARIANT ImplSameDivision
+INVARIANT ImplDosClasses
+INVARIANT ImplDosClassesAdditive
+INVARIANT ImplDosClassesNonNegative
+INVARIANT ConformsDiffersFlag
 INVARIANT ImplAscIsOrder
 INVARIANT ImplPointwiseKernel
 INVARIANT ImplOrderIndependentKernel
@@ -188,6 +197,8 @@ def step_d(ctx):
     for case, metric, G, cls in trace_cases(ctx):
         ev = M.run_real(case, G, rng)
         ev["metric"] = metric
+        ev["metric0"] = M.microzone_metric(G, [1, 1, 1])
+        ev["differs"] = not (set(M.shortest_diags(metric)) & set(M.shortest_diags(ev["metric0"])))
         ev["cls"] = cls
         events.append(ev)
         diags.add(tuple(M.shortest_diags(metric)))
@@ -208,6 +219,12 @@ def step_d(ctx):
     ctx.extra["D_frequency_orders"] = sorted(set(
         "ascending" if e["cs"]["ws"] == sorted(e["cs"]["ws"]) else
         "descending" if e["cs"]["ws"] == sorted(e["cs"]["ws"], reverse=True) else "shuffled/repeated" for e in events))
+    # no vacuity: lattices x anisotropic meshes for which dividing the reciprocal vectors by the mesh numbers
+    # changes the shortest main diagonal, with non-zero densities, in both classes together
+    ndiff = sum(1 for e in events if e["differs"] and nonzero(e))
+    if ndiff < 2:
+        raise tlcmod.MachineryError("mesh traces: only %d events where the mesh changes the shortest diagonal" % ndiff)
+    ctx.extra["D_events_mesh_changes_diagonal"] = ndiff
     from harness.props.c11 import report
 
     def describe(e, st):
